@@ -415,6 +415,9 @@ def run(ctx):
     # re-marshals as the raw character, so neither the key nor the recomputed hash agree
     ctx.cov["excluded_points_observed"] = {
         "invalid-utf8-idempotency-key": [dict(impl.get(i["id"]) or {}, hex=i["hex"]) for i in kinds.get("ikbytes", [])],
+        # DELETE /{ledger}/accounts/{address}/metadata/{key} with bytes in the path (percent-encoded or raw) through http.ReadRequest and the real
+        # v2 router: which bytes reach the backend, and what becomes of a DELETE_METADATA entry written with them (real InsertLogs, row read back)
+        "bytes-in-the-path-of-delete-metadata": [dict(impl.get(i["id"]) or {}, sent_hex=i["hex"], position=i.get("pos", "key")) for i in kinds.get("keybytes", [])],
         # legacy rows (sample of internal/storage/testdata/v1-dump.sql) through LogV1.ToLogsV2 + Logs.ToCore: they decode, their hash is the
         # v1 hash kept as hex text, which ChainLog cannot reproduce
         "v1-migrated-rows": [impl.get(i["id"]) for i in kinds.get("v1", [])]}
@@ -503,14 +506,18 @@ def run(ctx):
         "('value too long for type character varying'): InsertLogs fails and no such entry is ever stored. NOT EXECUTED HERE: the table of the harness keeps "
         "a key of any length, and the code is held to: what InsertLogs hands to the database is exactly the entry that was hashed (longer keys included: "
         "coverage.input_distribution.idempotency_key_length_in_characters)" % (facts["schema"], facts["schema_source"], facts["struct_tag"]),
-        "strings are valid UTF-8 (the API decodes JSON, which guarantees it); Lean strings are Unicode scalar sequences",
+        "strings are valid UTF-8 (Lean strings are Unicode scalar sequences). The API guarantees it for everything that comes out of a JSON body, NOT for "
+        "the path parameters of DELETE /{ledger}/accounts/{address}/metadata/{key}: the percent-decoded bytes of {address} and {key} reach the commander "
+        "unchecked (observed on each run through http.ReadRequest + the real v2 router: coverage.excluded_points_observed.bytes-in-the-path-of-delete-metadata). "
+        "`…/metadata/a%FF` is answered 204; the DELETE_METADATA entry is hashed over the escape \\ufffd that encoding/json writes for the bad byte, stored as "
+        "that escape (valid jsonb: PostgreSQL accepts it), read back as U+FFFD, and its recomputed hash differs from the stored one. Such an entry of the "
+        "UNCHANGED code cannot be re-verified; it lies outside the model's strings, is reported as an observation of round 4 and is not counted by this check",
         "transaction ids in set/delete-metadata targets are in [0, 2^64): ids are allocated sequentially from 0 (the excluded points 2^64, 2^70, -1 are "
         "run on the real code: ParseUint error, as the model predicts; not counted as violations)",
         "every ledger.Time the engine handles is UTC on a microsecond: Now() and ParseTime produce nothing else (accepted_wf), so Logs.ToCore's "
         "conversion of the log date to UTC is the identity; a log date given as text with an offset goes through ParseTime like a transaction timestamp "
         "and is covered (no longer an excluded point)",
-        "an idempotency key that is not valid UTF-8 (possible only through the raw Idempotency-Key header; every other string comes out of a JSON "
-        "body or a validated address) is outside the model: encoding/json writes the escape \\ufffd for the bad bytes, the decoded key is U+FFFD and "
+        "an idempotency key that is not valid UTF-8 (possible through the raw Idempotency-Key header; the other non-JSON strings are the path parameters, see above) is outside the model: encoding/json writes the escape \\ufffd for the bad bytes, the decoded key is U+FFFD and "
         "re-marshals differently, so key and recomputed hash both differ (observed on each run: coverage.excluded_points_observed). Not counted as a "
         "violation: a UTF-8 PostgreSQL database refuses such a varchar, InsertLogs fails and no such log is ever stored (not executable here)",
         "entries copied by the v1->v2 migration (migrations_v1.go: LogV1.ToLogsV2) are outside: they were hashed by the v1 engine and keep that hash "
